@@ -16,6 +16,7 @@ import (
 	"github.com/ipld/go-storethehash/store/primary"
 	mhprimary "github.com/ipld/go-storethehash/store/primary/multihash"
 	"github.com/ipld/go-storethehash/store/types"
+	"github.com/ipld/go-storethehash/store/vhook"
 )
 
 /* An append-only log [`recordlist`]s.
@@ -853,6 +854,7 @@ func (idx *Index) Get(key []byte) (types.Block, bool, error) {
 	idx.bucketLk.RLock()
 	cached, indexOffset, fileNum, err := idx.readBucketInfo(bucket)
 	idx.bucketLk.RUnlock()
+	vhook.Point("idx.get.afterBucketInfo")
 	if err != nil {
 		return types.Block{}, false, fmt.Errorf("error reading bucket: %w", err)
 	}
@@ -898,6 +900,7 @@ func (idx *Index) Flush() (types.Work, error) {
 	idx.outstandingWork = 0
 	idx.bucketLk.Unlock()
 
+	vhook.Point("idx.flush.afterSwap")
 	blks := make([]bucketBlock, 0, len(idx.curPool))
 	var work types.Work
 	for bucket, data := range idx.curPool {
@@ -912,6 +915,7 @@ func (idx *Index) Flush() (types.Work, error) {
 	if err != nil {
 		return 0, fmt.Errorf("cannot flush data to index file %s: %w", idx.file.Name(), err)
 	}
+	vhook.Point("idx.flush.afterWrite")
 	idx.bucketLk.Lock()
 	defer idx.bucketLk.Unlock()
 	for _, blk := range blks {
